@@ -224,6 +224,20 @@ class GenerateWasmVisitor(Visitor.DefaultVisitor):
         )
 
     def v_ReturnInstruction(self, ri: LinearIR.ReturnInstruction, ctx: Context):
+        # There is no conversion on return: what is left on the stack has to
+        # be exactly what the signature of the function promises
+        functionType = cast(LinearIR.FunctionType, ri.Parent.Parent.Type)
+        returnType = functionType.ReturnType
+        valueType = ri.Value.Type if ri.Value else LinearIR.VoidType()
+        if returnType.Kind != valueType.Kind or (
+            returnType.IsScalar()
+            and _ConvertType(returnType) != _ConvertType(valueType)
+        ):
+            raise Exception(
+                f"Unsupported return of {valueType} from a function "
+                f"returning {returnType}"
+            )
+
         if ri.Value:
             self.__PushValueOntoStack(ri.Value, ctx)
 
